@@ -12,6 +12,7 @@ func buildEntries() []entryPoint {
 		newPluginEntry(),
 		newProvEntry(),
 		newArchiveEntry(),
+		newChartdirEntry(),
 		newIgnoreEntry(),
 		newStrvalsEntry(),
 		newChartEntry(),
